@@ -90,6 +90,29 @@ def rat(v):
     return '(- %s)' % s if v < 0 else s
 
 
+def bvconst(x):
+    """value and width of a constant bit-vector term built from literals with bvadd/bvsub/bvmul/bvneg, else None"""
+    if isinstance(x, list) and len(x) == 3 and x[0] == '_' and isinstance(x[1], str) and x[1].startswith('bv') and x[1][2:].isdigit():
+        return int(x[1][2:]), int(x[2])
+    if isinstance(x, str) and x.startswith('#b'):
+        return int(x[2:], 2), len(x) - 2
+    if isinstance(x, str) and x.startswith('#x'):
+        return int(x[2:], 16), 4 * (len(x) - 2)
+    if isinstance(x, list) and x and x[0] in ('bvadd', 'bvsub', 'bvmul') and len(x) >= 3:
+        vs = [bvconst(y) for y in x[1:]]
+        if any(v is None for v in vs):
+            return None
+        w = vs[0][1]
+        acc = vs[0][0]
+        for v, _ in vs[1:]:
+            acc = acc + v if x[0] == 'bvadd' else (acc - v if x[0] == 'bvsub' else acc * v)
+        return acc % (1 << w), w
+    if isinstance(x, list) and len(x) == 2 and x[0] == 'bvneg':
+        v = bvconst(x[1])
+        return None if v is None else ((-v[0]) % (1 << v[1]), v[1])
+    return None
+
+
 BIN = {'fp.add': '+', 'fp.sub': '-', 'fp.mul': '*', 'fp.div': '/'}
 CMP = {'fp.eq': '=', 'fp.lt': '<', 'fp.leq': '<=', 'fp.gt': '>', 'fp.geq': '>='}
 
@@ -139,16 +162,18 @@ class Swap:
                     raise Undecided('fp2real: unhandled ' + h)
             if x and isinstance(x[0], list) and x[0][:2] == ['_', 'to_fp']:
                 arg = x[-1]
-                if isinstance(arg, list) and len(arg) == 3 and arg[0] == '_' and arg[1].startswith('bv'):
-                    v, w = int(arg[1][2:]), int(arg[2])
+                c = bvconst(arg)
+                if c is not None:
+                    v, w = c
                     if v >= 2 ** (w - 1):
                         v -= 2 ** w
                     return rat(Fraction(v))
                 raise Undecided('fp2real: to_fp conversion of a non-constant: ' + dump(x)[:100])
             if x and isinstance(x[0], list) and x[0][:2] == ['_', 'to_fp_unsigned']:
                 arg = x[-1]
-                if isinstance(arg, list) and len(arg) == 3 and arg[0] == '_' and arg[1].startswith('bv'):
-                    return rat(Fraction(int(arg[1][2:])))
+                c = bvconst(arg)
+                if c is not None:
+                    return rat(Fraction(c[0]))
                 raise Undecided('fp2real: to_fp_unsigned conversion of a non-constant: ' + dump(x)[:100])
             return [self.tr(y) for y in x]
         return x
